@@ -69,6 +69,12 @@ def machine(kind, retry, catch, fname):
     elif kind == "parallel":
         states["T"] = dict({"Type": "Parallel", "Next": "N", "Branches": [{"StartAt": "TI", "States": {"TI": dict(t, End=True)}},
                                                                         {"StartAt": "TP", "States": {"TP": {"Type": "Pass", "Result": "p", "End": True}}}]}, **hs)
+    elif kind == "mapmc":
+        # two batches of one; only the second item's task is scripted to fail (the first item echoes at once)
+        states["T"] = dict({"Type": "Map", "Next": "N", "ItemsPath": "$.pair", "MaxConcurrency": 1,
+                            "ItemProcessor": {"StartAt": "TC", "States": {
+                                "TC": {"Type": "Choice", "Choices": [{"Variable": "$", "NumericEquals": 1, "Next": "TP"}], "Default": "TI"},
+                                "TP": {"Type": "Pass", "End": True}, "TI": dict(t, End=True)}}}, **hs)
     else:
         states["T"] = dict({"Type": "Map", "Next": "N", "ItemsPath": "$.items", "ItemProcessor": {"StartAt": "TI", "States": {"TI": dict(t, End=True)}}}, **hs)
     states["N"] = dict(follow)
@@ -85,14 +91,14 @@ def cases(tier):
             for o in os_:
                 out.append(("task", r, c, o))
     single = [r for r in rs if r is None or len(r) == 1][::3]
-    for kind in ("parallel", "map"):
+    for kind in ("parallel", "map", "mapmc"):
         for r in single:
             for c in cs[:3]:
                 for o in os_[::2]:
                     out.append((kind, r, c, o))
     return out
 
-INPUT = {"in": 1, "items": [7]}
+INPUT = {"in": 1, "items": [7], "pair": [1, 2]}
 
 def workers_for(i, o):
     return {"f%d" % i: {"*": to_outcomes(o)}}
@@ -227,7 +233,7 @@ def run(tier, seed):
         if agree(tt, ft, gt, ref):
             continue
         cls = "policy-mismatch"
-        if kind in ("parallel", "map") and "X" in o and not tt:
+        if kind in ("parallel", "map", "mapmc") and "X" in o and not tt:
             # the worker itself reports the reserved name Task.Terminated from inside a branch
             pos = o.index("X")
             cls = "worker-reported-Task.Terminated-in-fanout-never-ends"
